@@ -171,6 +171,40 @@ def check_unsupported(env, acc):
             acc.tick("refused")
 
 
+def check_special_angles(env, acc):
+    """Rotation gates at the angles where a converter might substitute a fixed gate: every multiple of pi/4 of either
+    sign up to 2 pi (what QuantumCircuit.inverse() produces from s, t, p(pi/2) ...), and their near neighbours."""
+    from qiskit import QuantumCircuit
+    from lightworks.qubit import qiskit_converter
+    angles = [k * math.pi / 4 for k in range(-8, 9)] + [-math.pi / 2 + 1e-9, math.pi / 4 - 1e-9, -3 * math.pi / 4 + 1e-7]
+    for g in ("p", "rz", "rx", "ry"):
+        for th in angles:
+            for ctx in ("alone", "h_g_h", "after_cx"):
+                n = 2 if ctx == "after_cx" else 1
+                qc = QuantumCircuit(n)
+                if ctx == "h_g_h":
+                    qc.h(0); getattr(qc, g)(th, 0); qc.h(0)
+                elif ctx == "alone":
+                    getattr(qc, g)(th, 0)
+                else:
+                    qc.h(0); qc.cx(0, 1); getattr(qc, g)(th, 1); getattr(qc, g)(-th, 0); qc.h(1)
+                case = {"scenario": "special_angles", "gate": g, "angle": th, "context": ctx, "seed": env.seed}
+                acc.tick("executions"); acc.tick("transitions", len(qc.data))
+                try:
+                    circ, ps = qiskit_converter(qc, allow_post_selection=True)
+                    accept = None if ps is None else (lambda o: bool(ps.validate(lw.State(list(o)))))
+                    A, leak, _ = rq.circuit_gate_matrix(circ, n, accept)
+                except Exception as e:  # noqa: BLE001
+                    acc.violation("converter_crashes", case, {"error": repr(e)})
+                    continue
+                s2, err = rq.compare_up_to_scalar(A, operator_big_endian(qc))
+                if s2 < 1e-14 or (err > TOL * max(1.0, math.sqrt(s2)) and err / math.sqrt(s2) > 1e-6):
+                    acc.violation("converted_circuit_implements_something_else", case,
+                                  {"relative_err": err / math.sqrt(max(s2, 1e-300)), "s2": s2})
+                acc.state("angle", g, round(th, 9), ctx)
+                acc.nontriv("angle", g, round(th, 9), ctx)
+
+
 def run(tier, seed):
     env = Env(seed)
     plan = [(2, 3), (3, 2), (4, 1)] if tier == "quick" else [(2, 4), (3, 3), (4, 2)]
@@ -230,6 +264,7 @@ def run(tier, seed):
     acc = kernel.pmap(shard_fn, kernel.interleave(jobs, kernel.NPROC * 8))
     u = kernel.Acc()
     check_unsupported(env, u)
+    check_special_angles(env, u)
     acc.merge(u)
     meta = {
         "rule": "for n qubits and every sequence of length <= L over ALL ordered qubit tuples of cx, cz, swap, ccx, ccz "
@@ -252,6 +287,9 @@ def replay(w, acc):
     from .c01 import _tup
     case = w["case"]
     env = Env(case.get("seed", 0))
+    if case.get("scenario") == "special_angles":
+        check_special_angles(env, acc)
+        return
     if "gates" not in case:
         check_unsupported(env, acc)
         return
